@@ -267,7 +267,7 @@ class Failure:
                     break
 
     def kind(self):
-        m = self.diag.message
+        m = self.diag.message.replace('post-condition', 'postcondition').replace('pre-condition', 'precondition')
         for k in ('postcondition', 'precondition', 'assertion', 'invariant', 'overflow', 'type invariant', 'decreases', 'termination'):
             if k in m:
                 return k.replace(' ', '-')
@@ -364,6 +364,18 @@ def decide(prop, tier, seed, jobs, meta, extra_results=None):
                 continue
             if k == 'verif':
                 f = Failure(job, d)
+                # R-inline fallback: the failing function calls a helper that has no contract (added since the contracts were
+                # written) and could not be inlined -- a caller is checked against the callee's contract, there is none: undecided
+                helper = None
+                if f.fn and gen.log.uncontracted_new:
+                    body = '\n'.join(gen.text.split('\n')[f.fn['start_line'] - 1:f.fn['end_line']])
+                    for nm in gen.log.uncontracted_new:
+                        if re.search(r'\b%s\s*\(' % re.escape(nm), body):
+                            helper = nm
+                if helper:
+                    tool_problems.append('%s: %s fails an obligation but calls `%s`, a function without contract that could not be inlined '
+                                         '(R-inline): undecided, not a violation' % (job.name, f.fn_key, helper))
+                    continue
                 if not f.tags:
                     tool_problems.append('%s: failed obligation without property attribution: %s at generated line %s (%s)'
                                          % (job.name, d.message.split(chr(10))[0], f.line, f.fn_key))
